@@ -25,6 +25,9 @@ fn session_sub_key(key: &[u8], salt: &[u8]) -> [u8; blake3::OUT_LEN] {
 }
 
 pub fn now() -> Result<u64, SystemTimeError> {
+    #[cfg(octo_squirrel_verif)]
+    return Ok(crate::verif::clock::unix_now());
+    #[cfg(not(octo_squirrel_verif))]
     Ok(SystemTime::now().duration_since(UNIX_EPOCH)?.as_secs())
 }
 
